@@ -14,6 +14,7 @@ import itertools
 import logging
 import re
 import sys
+import threading
 import time
 
 from gscrib import GCodeBuilder
@@ -89,6 +90,79 @@ class Faulty(Behaviour):
         return bytes(b)
 
 
+class MonitoredCore(printcore):
+    """printcore with two observation points (no behaviour change): every assignment to the
+    clear-to-send flag and every transmission is logged with the thread that performed it."""
+
+    def __init__(self, *a, **kw):
+        self.__dict__["_mon"] = []
+        self.__dict__["_clear_value"] = 0
+        self.__dict__["_resendfrom_value"] = -1
+        super().__init__(*a, **kw)
+
+    @property
+    def clear(self):
+        return self.__dict__["_clear_value"]
+
+    @clear.setter
+    def clear(self, value):
+        self.__dict__["_mon"].append(("clear", bool(value), threading.current_thread().name))
+        self.__dict__["_clear_value"] = value
+
+    @property
+    def resendfrom(self):
+        return self.__dict__["_resendfrom_value"]
+
+    @resendfrom.setter
+    def resendfrom(self, value):
+        self.__dict__["_mon"].append(("resendfrom", value, threading.current_thread().name))
+        self.__dict__["_resendfrom_value"] = value
+
+    def _send(self, command, lineno=0, calcchecksum=False):
+        prefix = f"N{lineno} " if calcchecksum else ""
+        self.__dict__["_mon"].append(("send", prefix + command, threading.current_thread().name))
+        return super()._send(command, lineno, calcchecksum)
+
+
+def listener_touched_resendfrom_between(events, prev_n, n):
+    """Did the listener thread assign 'resendfrom' while the print thread was between its
+    transmissions of line prev_n and line n (the unsynchronised-counter race), looking at the
+    LAST such pair of consecutive print-thread transmissions?"""
+    sends = [(i, e[1]) for i, e in enumerate(events) if e[0] == "send" and e[2] == "print thread"
+             and "M110" not in e[1] and e[1].startswith("N")]
+    pair = None
+    for (i, a), (j, b) in zip(sends, sends[1:]):
+        try:
+            na, nb = int(a[1:].split(" ")[0]), int(b[1:].split(" ")[0])
+        except ValueError:
+            continue
+        if na == prev_n and nb == n:
+            pair = (i, j)
+    if pair is None:
+        return False
+    # the race window opens when the print thread starts servicing the previous line
+    lo = pair[0]
+    while lo > 0 and not (events[lo - 1][0] == "send" and events[lo - 1][2] == "print thread"):
+        lo -= 1
+    return any(e[0] == "resendfrom" and e[2] == "read thread" for e in events[lo:pair[1]])
+
+
+def tokens_conserved(events):
+    """Flow-control bookkeeping of the sender: every job-line transmission made by the print thread
+    must be licensed by its own clear-to-send event from the listener thread (the flag is a token:
+    the print thread takes it down before it transmits).  Returns (ok, transmissions, tokens)."""
+    tokens = sends = 0
+    ok = True
+    for kind, what, thread in events:
+        if kind == "clear" and what and thread == "read thread":
+            tokens += 1
+        elif kind == "send" and thread == "print thread" and "M110" not in what:
+            sends += 1
+            if sends > tokens:
+                ok = False
+    return ok, sends, tokens
+
+
 def make_job(rng, nlines):
     g = GCodeBuilder()
     rec = RecordingWriter()
@@ -129,7 +203,7 @@ def expected_commands(job):
 def stream_job(ctx, col, case, tag, rng, job, faults, lat, perturb=True):
     beh = Faulty(rng, faults, lat)
     dev = MarlinPTY(beh).start()
-    p = printcore()
+    p = MonitoredCore()
     p.loud = False
     want = expected_commands(job)
     info = {"job_lines": len(job), "commands": len(want), "corrupt_tx": sorted(faults), "latency": lat, "tag": tag,
@@ -188,6 +262,11 @@ def stream_job(ctx, col, case, tag, rng, job, faults, lat, perturb=True):
     col.count("context_switch_observations", sum(pert.switch_pairs.values()))
     for (a, b), n in pert.switch_pairs.items():
         col.count(f"switch:{role(a)}->{role(b)}", n)
+    conserved, n_sends, n_tokens = tokens_conserved(list(p.__dict__["_mon"]))
+    info["flow_control_tokens_conserved"] = conserved
+    info["_mon"] = list(p.__dict__["_mon"])
+    col.count("flow_control_events_observed", len(p.__dict__["_mon"]))
+    col.count("jobs_with_conserved_tokens" if conserved else "jobs_with_unlicensed_transmissions")
     return analyse(ctx, col, case, info, dev, beh, want, verdict)
 
 
@@ -214,7 +293,7 @@ def analyse(ctx, col, case, info, dev, beh, want, verdict):
                   for _, k, _ in dev.events)
     fault_class = fault_pattern_class(info["corrupt_tx"], len(want))
     col.key(fault_class, info["latency"], compress(sig))
-    witness = {**info, "verdict": verdict, "resend_requests": dev.resend_requests,
+    witness = {**{k: v for k, v in info.items() if k != "_mon"}, "verdict": verdict, "resend_requests": dev.resend_requests,
                "corrupted": beh.corrupted[:6],
                "transmissions": [r.decode("latin1") for r in numbered[:40]],
                "accepted": [a.decode("latin1") for a in dev.accepted[:40]],
@@ -260,9 +339,11 @@ def analyse(ctx, col, case, info, dev, beh, want, verdict):
             # known mechanism: the listener stores a new 'Resend: r' (self.resendfrom = r) while the
             # print thread is executing 'self.resendfrom += 1' (lost update): only possible when a
             # resend request was issued between the two transmissions
+            raced = listener_touched_resendfrom_between(info.get("_mon", []), prev_n, n)
             return fail("transmission-skips-a-line", previous=prev_n, number=n,
                         resend_request_in_between=resend_since_prev,
-                        mech="c15:wire:skip-after-concurrent-resend-request" if resend_since_prev
+                        listener_wrote_resendfrom_concurrently=raced,
+                        mech="c15:wire:skip-after-concurrent-resend-request" if raced
                         else "c15:wire:skip")
         prev_n = n
         resend_since_prev = False
@@ -308,7 +389,10 @@ def classify(info, dev, want, what, beh):
         # them) are still in flight; a corruption among those is never repaired.  This needs at
         # least TWO corrupted transmissions in the job -- a job with a single corrupted transmission
         # must always be recovered, whatever the number of resend requests it provoked.
-        if len(beh.corrupted) >= 2:
+        # ... and it presupposes that the sender itself kept its flow-control bookkeeping intact
+        # (every transmission licensed by a clear-to-send event of its own): a tail lost by a sender
+        # that transmitted without a licence is a different defect.
+        if len(beh.corrupted) >= 2 and info.get("flow_control_tokens_conserved", True):
             return "c15:tail-lost-after-repeated-resend"
     return None
 
